@@ -56,10 +56,20 @@ Occurs(ids, x) == \E i \in 1..Len(ids) : ids[i] = x
    message for a text that fails validation).  The class is the documented one; the spellings are those that break
    naive text templating. *)
 Spellings == {"fmt0", "fmtx", "pcts", "pctmap", "bslash", "lbrace", "rbrace", "braces", "pct", "nl"}
-Situations == [ intervalOpen |-> "InvalidInput", intervalClose |-> "InvalidInput", sumVariable |-> "InvalidInput",
-                listBlank |-> "MissingInput", listLength |-> "MissingInput",
-                stringPattern |-> "InvalidInput", stringShort |-> "InvalidInput" ]
-OtherInFamily == \A x \in DOMAIN Situations : Situations[x] \in StudentFacing \ CalcFamily
+TextSituations == [ intervalOpen |-> "InvalidInput", intervalClose |-> "InvalidInput", sumVariable |-> "InvalidInput",
+                    listBlank |-> "MissingInput", listLength |-> "MissingInput",
+                    stringPattern |-> "InvalidInput", stringShort |-> "InvalidInput" ]
+(* ---- anticipated problems of array arithmetic (math_array.py, the C14 statement): the formula parses and every name is
+   known, the operation is one linear algebra does not have.  The documented class is MathArrayError (its subclass
+   MathArrayShapeError where a shape is at fault -- a subclass keeps the class), CalcError for the ambiguous product of
+   three vectors.  For these the "spelling" selects one of ten concrete formulas of the kind (rendered by the adapter:
+   literal and named operands, real / complex / integer-valued-but-complex exponents, ...). *)
+ArraySituations == [ arrayPowNonInt |-> "MathArrayError", arrayPowComplex |-> "MathArrayError", arrayPowArray |-> "MathArrayError",
+                     arrayAddScalar |-> "MathArrayError", arrayShape |-> "MathArrayError", arrayDivide |-> "MathArrayError",
+                     notSquarePow |-> "MathArrayError", singularInverse |-> "MathArrayError", tripleVector |-> "CalcError" ]
+Situations == TextSituations @@ ArraySituations
+OtherInFamily == /\ \A x \in DOMAIN TextSituations : TextSituations[x] \in StudentFacing \ CalcFamily
+                 /\ \A x \in DOMAIN ArraySituations : ArraySituations[x] \in StudentFacing \cap CalcFamily
 ASSUME OtherInFamily
 
 (* ---- laws (checked by TLC on every enumerated string) *)
